@@ -147,8 +147,15 @@ def x_roundtrip(ctx, case):
         # evaluating twice yields the same
         ctx.check(b"".join(c.iter_bytes()) == b"".join(c.iter_bytes()), "roundtrip.repeatable")
     else:
+        import copy
         data = case["data"]
-        c = json_content(data)
+        given = copy.deepcopy(data)
+        c = json_content(given)
+        # the caller goes on using (and changing) its object; the content is what was given
+        if isinstance(given, list):
+            given.append("changed-later")
+        elif isinstance(given, dict):
+            given["changed-later"] = 1
         raw = b"".join(c.iter_bytes())
         ctx.check(json.loads(raw.decode("utf8")) == data, "roundtrip.json",
                   lambda: {"raw": raw})
@@ -243,6 +250,15 @@ def x_stream(ctx, case):
             with open(p, "wb") as f:
                 f.write(data)
             chunks = list(it)
+            # lazy means "read when evaluated": a later evaluation sees the file as it is then
+            data2 = data[::-1] + b"!"
+            with open(p, "wb") as f:
+                f.write(data2)
+            pos2 = 0 if off is None else (off if wh == 0 else len(data2) + off)
+            if pos2 >= 0:
+                again = b"".join(c.iter_bytes())
+                ctx.check(again == data2[pos2:], "stream.lazy",
+                          lambda: {"second evaluation": again, "file now": data2[pos2:]})
         ctx.check(b"".join(chunks) == expected, "stream.bytes==data[offset:]",
                   lambda: {"file": True, "chunks": chunks, "expected": expected})
         ctx.check(all(0 < len(x) <= cs for x in chunks), "stream.chunks-nonempty-and-bounded",
